@@ -459,6 +459,8 @@ func vfScaleChecks(div int) func() {
 	return func() { flag.Set("rapid.checks", old) }
 }
 
+func vfStack() []byte { return debug.Stack() }
+
 func vfMustJSON(v any) []byte {
 	b, err := json.Marshal(v)
 	if err != nil {
